@@ -497,13 +497,13 @@ func TestVerifC01Mine(t *testing.T) {
 		t.Fatal(err)
 	}
 	defer f.Close()
-	for i := 0; i < want; i++ {
+	for i := 0; i < want; {
 		p := c01GenPlain(r)
 		prefix := p.headerPrefix()
 		var found atomic.Int64
 		found.Store(-1)
 		var wg sync.WaitGroup
-		workers := 16
+		workers := vh.EnvInt("VERIF_MINE_WORKERS", 16)
 		for w := 0; w < workers; w++ {
 			wg.Add(1)
 			go func(w int) {
@@ -515,8 +515,9 @@ func TestVerifC01Mine(t *testing.T) {
 		}
 		wg.Wait()
 		if found.Load() < 0 {
-			continue
+			continue // nonce space exhausted (probability 1/e): another job
 		}
+		i++
 		p.nonce = fmt.Sprintf("%08x", uint32(found.Load()))
 		fmt.Fprintln(f, p.toCase("acct.worker", "job1").line("vd", "0"))
 	}
